@@ -16,6 +16,33 @@ OWNERS = {
 DEFINITIVE = {"QS_LP_OPTIMAL", "QS_LP_INFEASIBLE", "QS_LP_UNBOUNDED"}
 
 
+def _promotions(f, src):
+    """assignments of a definitive constant to the local `src` (or to a parameter passed through) inside f"""
+    if not (isinstance(src, list) and src and src[0] == "v" and src[1] == "l"):
+        return []
+    out = []
+    for b, i, e in f.elements():
+        pairs = []
+        if e[0] == "A" and e[1][1] == "=":
+            l = strip(e[1][2])
+            if isinstance(l, list) and l and l[0] == "v" and l[2] == src[2]:
+                pairs.append((e[1][3], e[2], show(e[1])))
+        elif e[0] == "D":
+            pairs += [(init, e[2], "%s = %s" % (n, show(init))) for n, init in e[1] if n == src[2] and init is not None]
+        for rhs, loc, txt in pairs:
+            for nd in _consts(rhs):
+                if nd in DEFINITIVE:
+                    out.append((loc, txt))
+    return out
+
+
+def _consts(t):
+    from ..core import walk
+    for nd in walk(t):
+        if isinstance(nd, list) and nd and nd[0] == "n" and nd[2]:
+            yield nd[2]
+
+
 def run(prog, rule="R-OPTSTORE"):
     res = RuleResult(rule, "a definitive status is stored into the problem/cache only by the exact tests, the rational "
                            "simplex driver opt_work, and the exact basis verdict (under its optimal flag)")
@@ -53,6 +80,18 @@ def run(prog, rule="R-OPTSTORE"):
                     res.violations.append(Violation(rule, "%s|%s unguarded" % (f.name, what), f.name, short_loc(loc),
                                                     "%s publishes %s without being dominated by a test of %s" % (desc, what, ow["guard"])))
                     continue
+                if what == "<non-constant>":
+                    # provenance of the published value: a local of the owner that the function itself never sets to a definitive
+                    # constant - the definitive value can only have come from the callee that received its address (the simplex driver)
+                    src = strip(e[1][3]) if e[0] == "A" else strip(e[1][3][1])
+                    promo = _promotions(f, src)
+                    if promo:
+                        owners_seen.add(f.name)
+                        ploc, ptxt = promo[0]
+                        res.violations.append(Violation(rule, "%s|published status set to a definitive constant by the publisher itself" % f.name, f.name, short_loc(ploc),
+                                                        "%s: %s publishes this value (%s), and sets it to a definitive status itself instead of taking it "
+                                                        "from the solver (%s)" % (ptxt, f.name, desc, ow["reason"])))
+                        continue
                 owners_seen.add(f.name)
                 res.sample({"site": "%s %s: %s" % (short_loc(loc), f.name, desc), "verdict": "owner: " + ow["reason"]})
                 continue
